@@ -429,12 +429,20 @@ def __infer_oper_call(
 
         for m in mult:
             if m.is_unique():
-                if (
-                    result.is_empty()
-                    or types_disjoint
+                if result.is_empty():
+                    result = m
+                elif (
+                    types_disjoint
                     or (result.disjoint_union and m.disjoint_union)
                 ):
-                    result = m
+                    # The union is only part of a disjoint set if
+                    # every operand is.
+                    result = dataclasses.replace(
+                        m,
+                        disjoint_union=(
+                            result.disjoint_union and m.disjoint_union
+                        ),
+                    )
                 else:
                     result = DUPLICATE
                     break
